@@ -220,12 +220,12 @@ func (w *world) prime() error {
 	}
 	s := &script{}
 	b := canaryBuf(2000, 1)
-	r := s.clientPack(w, b, "4:7f000001:9", 1500, 8, "n")
+	r := s.clientPack(w, b, "4:7f000001:9", 1500, 8, "n", nil)
 	if !r.ok() {
 		return fmt.Errorf("prime: pack %s", r.class)
 	}
 	ts, _ := w.tsOfClientPacket(b, r)
-	if u := s.serverUnpack(w, b, clientAP, r.ps, r.pl, ts); !u.ok() {
+	if u := s.serverUnpack(w, b, clientAP, r.ps, r.pl, ts, nil); !u.ok() {
 		return fmt.Errorf("prime: unpack %s", u.class)
 	}
 	return nil
@@ -296,14 +296,14 @@ func runPair(s *script, c Case) {
 	if p.name == "direct" {
 		limit = dirLimit(c.MTU, c.Addr)
 	}
-	r := s.clientPack(w, b, c.Addr, start, c.Len, c.PolC)
+	r := s.clientPack(w, b, c.Addr, start, c.Len, c.PolC, nil)
 	inContract := start >= front && behind >= rear
 	s.oraclePack(key+":client-pack", inContract, r, b, before, start, c.Len, limit, front+c.Len+rear <= limit, "")
 	if r.ok() {
 		s.tag("pack-ok")
 		ts, _ := w.tsOfClientPacket(b, r)
 		pre := clone(b)
-		u := s.serverUnpack(w, b, downstream(c.Cli6), r.ps, r.pl, ts)
+		u := s.serverUnpack(w, b, downstream(c.Cli6), r.ps, r.pl, ts, nil)
 		want := specNorm(c.Addr)
 		if p.name == "direct" {
 			want = showConnAddr(w.tunnel) // the direct server names its configured tunnel address
@@ -326,7 +326,7 @@ func runPair(s *script, c Case) {
 	before2 := clone(b2)
 	limit2 := specLimit(c.MTU, c.Cli6)
 	maxClientPacketSize := zerocopy.MaxPacketSizeForAddr(c.MTU, downstream(c.Cli6).Addr())
-	r2 := s.serverPack(w, b2, c.Src, start2, c.Len2, maxClientPacketSize, c.PolS, c.Only)
+	r2 := s.serverPack(w, b2, c.Src, start2, c.Len2, maxClientPacketSize, c.PolS, c.Only, nil)
 	allowed := ""
 	if p.name == "direct" && c.Only && specNorm(c.Src) != specNorm(showConnAddr(w.tunnel)) {
 		allowed = "err:source" // tunnelUDPTargetOnly drops packets from other sources by design
@@ -342,7 +342,7 @@ func runPair(s *script, c Case) {
 			from, _ = addrPort(c.Src)
 			want = c.Src // the direct client reports the socket's source address as it is
 		}
-		u2 := s.clientUnpack(w, b2, from, r2.ps, r2.pl, ts, csid)
+		u2 := s.clientUnpack(w, b2, from, r2.ps, r2.pl, ts, csid, nil)
 		s.oracleUnpack(key+":client-unpack", u2, b2, pre, r2.ps, r2.pl, want, before2[start2:start2+c.Len2])
 	}
 }
@@ -402,7 +402,7 @@ func runUp(s *script, c Case) {
 	rb := s.newBuf(start+c.Len+rear+clamp0(c.RearSlack), c.Seed)
 	s.fill(rb, start, c.Len, c.Seed>>8)
 	payload := clone(rb[start : start+c.Len])
-	r := s.clientPack(ws, rb, addr, start, c.Len, c.PolC)
+	r := s.clientPack(ws, rb, addr, start, c.Len, c.PolC, nil)
 	if !r.ok() {
 		s.tag("remote-pack:" + r.class)
 		return
@@ -414,7 +414,7 @@ func runUp(s *script, c Case) {
 	ts, _ := ws.tsOfClientPacket(rb, r)
 	b := s.move(rb, r.ps, r.pl, size, h.Front, c.Seed+1)
 	pre := clone(b)
-	u := s.serverUnpack(ws, b, downstream(c.Cli6), h.Front, r.pl, ts)
+	u := s.serverUnpack(ws, b, downstream(c.Cli6), h.Front, r.pl, ts, nil)
 	want := specNorm(addr)
 	if sp.name == "direct" {
 		want = showConnAddr(ws.tunnel)
@@ -432,7 +432,7 @@ func runUp(s *script, c Case) {
 		limit = dirLimit(c.CMTU, u.addr)
 	}
 	before := clone(b)
-	r2 := s.clientPack(wc, b, u.addr, u.ps, u.pl, c.PolS)
+	r2 := s.clientPack(wc, b, u.addr, u.ps, u.pl, c.PolS, &win{h.Front, h.Front + r.pl})
 	s.oraclePack(key+":client-repack", true, r2, b, before, u.ps, u.pl, limit, front2+u.pl+rear2 <= limit, "")
 	if !r2.ok() {
 		return
@@ -440,7 +440,7 @@ func runUp(s *script, c Case) {
 	s.tag("relayed")
 	ts2, _ := wc.tsOfClientPacket(b, r2)
 	pre2 := clone(b)
-	u2 := s.serverUnpack(wc, b, clientAP, r2.ps, r2.pl, ts2)
+	u2 := s.serverUnpack(wc, b, clientAP, r2.ps, r2.pl, ts2, &win{h.Front, h.Front + r.pl})
 	want2 := specNorm(u.addr)
 	if cp.name == "direct" {
 		want2 = showConnAddr(wc.tunnel)
@@ -481,7 +481,7 @@ func runDown(s *script, c Case) {
 	s.fill(fb, start, c.Len, c.Seed>>8)
 	payload := clone(fb[start : start+c.Len])
 	farLimit := zerocopy.MaxPacketSizeForAddr(c.RMTU, netip.IPv4Unspecified())
-	r := s.serverPack(wc, fb, c.Src, start, c.Len, farLimit, c.PolC, false)
+	r := s.serverPack(wc, fb, c.Src, start, c.Len, farLimit, c.PolC, false, nil)
 	if !r.ok() {
 		s.tag("remote-pack:" + r.class)
 		return
@@ -499,7 +499,7 @@ func runDown(s *script, c Case) {
 		from, _ = addrPort(c.Src)
 		want = c.Src
 	}
-	u := s.clientUnpack(wc, b, from, h.Front, r.pl, ts, csid)
+	u := s.clientUnpack(wc, b, from, h.Front, r.pl, ts, csid, nil)
 	s.oracleUnpack(key+":client-unpack", u, b, pre, h.Front, r.pl, want, payload)
 	if !u.ok() {
 		return
@@ -515,7 +515,7 @@ func runDown(s *script, c Case) {
 	if sp.name == "direct" && c.Only && specNorm(u.addr) != specNorm(showConnAddr(ws.tunnel)) {
 		allowed = "err:source"
 	}
-	r2 := s.serverPack(ws, b, u.addr, u.ps, u.pl, maxClientPacketSize, c.PolS, c.Only)
+	r2 := s.serverPack(ws, b, u.addr, u.ps, u.pl, maxClientPacketSize, c.PolS, c.Only, &win{h.Front, h.Front + r.pl})
 	s.oraclePack(key+":server-repack", true, r2, b, before, u.ps, u.pl, limit, front2+u.pl+rear2 <= limit, allowed)
 	if !r2.ok() {
 		return
@@ -529,7 +529,7 @@ func runDown(s *script, c Case) {
 		from2, _ = addrPort(u.addr)
 		want2 = u.addr
 	}
-	u2 := s.clientUnpack(ws, b, from2, r2.ps, r2.pl, ts2, csid2)
+	u2 := s.clientUnpack(ws, b, from2, r2.ps, r2.pl, ts2, csid2, &win{h.Front, h.Front + r.pl})
 	s.oracleUnpack(key+":downstream-unpack", u2, b, pre2, r2.ps, r2.pl, want2, payload)
 }
 
